@@ -62,6 +62,8 @@ type caseC04 struct {
 	Waits   []int64 `json:"waits_ns"`
 	StopAt  int     `json:"stop_at"` // index of the answer that says stop (len = never within the script)
 	Latency int64   `json:"latency_ns"`
+	// StopAfter > 0: Stop() is called that long after the start (typically in the middle of a pacer wait)
+	StopAfter int64 `json:"stop_after_ns,omitempty"`
 }
 
 func runCase(cs caseC04) (log []consult, entries []int64, nres int, closed bool) {
@@ -83,6 +85,12 @@ func runCase(cs caseC04) (log []consult, entries []int64, nres int, closed bool)
 	tr := vegeta.NewStaticTargeter(vegeta.Target{Method: "GET", URL: "http://verif.invalid/"})
 	p.t0 = time.Now()
 	res := atk.Attack(tr, p, time.Duration(cs.Du), "c04")
+	if cs.StopAfter > 0 {
+		go func() {
+			time.Sleep(time.Duration(cs.StopAfter))
+			atk.Stop()
+		}()
+	}
 	timeout := time.After(90 * time.Second) // only reached when the attack really does not end
 	for {
 		select {
@@ -202,7 +210,18 @@ func runC04(c *run.Ctx, s *kit.Summary) {
 		if r.Chance(0.5) {
 			cs.Du = r.Range(2, 40) * 1000000
 		}
-		if r.Chance(0.12) { // a duration that is over before (or just as) the loop first looks at the clock
+		if r.Chance(0.15) { // Stop arrives in the middle of a pacer wait, with idle workers around
+			cs.Du, cs.StopAt, cs.Latency = 0, k, 0
+			cs.Workers = uint64(1 + r.Pick(4))
+			cs.Max = cs.Workers + uint64(r.Pick(2))
+			var total int64
+			for j := range cs.Waits {
+				cs.Waits[j] = r.PickI64([]int64{3000000, 8000000, 15000000, 30000000})
+				total += cs.Waits[j]
+			}
+			cs.StopAfter = 1000000 + r.Range(0, total)
+		}
+		if cs.StopAfter == 0 && r.Chance(0.12) { // a duration that is over before (or just as) the loop first looks at the clock
 			cs.Du = r.PickI64([]int64{1, 100, 1000, 10000, 30000, 100000})
 		}
 		wg.Add(1)
@@ -253,7 +272,13 @@ func runC04(c *run.Ctx, s *kit.Summary) {
 				}
 			}
 			// (d) exactly one hit per non-stop answer: nothing released without the pacer, nothing after stop
-			if nres != nonStop {
+			if cs.StopAfter > 0 {
+				s.Count("stop_during_pacer_wait")
+				// the hand-off of the last released hit may lose against the stop signal
+				if nres > nonStop || nres < nonStop-1 {
+					viol("hits_not_one_per_pacer_release", "with a Stop call: the number of hits is neither the number of non-stop pacer answers nor one less", fmt.Sprint(nonStop-1, "..", nonStop), fmt.Sprint(nres))
+				}
+			} else if nres != nonStop {
 				viol("hits_not_one_per_pacer_release", "the number of hits differs from the number of non-stop pacer answers", fmt.Sprint(nonStop), fmt.Sprint(nres))
 			}
 			// (e) no early start: the k-th request to reach the transport cannot precede the instant the
